@@ -84,6 +84,16 @@ def support_sign(ctx, R="R-C07-support-sign"):
         f = prog.own_method(fc.bank(prog, name), "supports")
         apps = [x for x in astq.func_calls(f) if astq.attr_call(x, "append")]
         ok = len(apps) == 1 and astq.eq_text(apps[0].args[0], "(-K//2-1,K//2+1)")
+        if not ok and len(apps) == 1 and isinstance(apps[0].args[0], ast.Tuple) and len(apps[0].args[0].elts) == 2:
+            # by evaluation over K = 0..200 (integer identities such as -K // 2 == -(K - K // 2) are spelt in many ways)
+            try:
+                from .. import scenario as SC
+                ev_ = SymEval(prog, f)
+                ev_.env = {}
+                lo_e, hi_e = (ev_.expr(x_) for x_ in apps[0].args[0].elts)
+                ok = all(SC.int_eval(lo_e, {"K": k_}) == -k_ // 2 - 1 and SC.int_eval(hi_e, {"K": k_}) == k_ // 2 + 1 for k_ in range(0, 201))
+            except Exception:
+                ok = False
         ks = [n for n in f.body_nodes() if isinstance(n, ast.Assign) and astq.is_name(n.targets[0], "K") and astq.eq_text(n.value, "int(np.ceil(K))")]
         ctx.check(ok and len(ks) == 1, R, f, apps[0] if apps else MISSING(f.node),
                   "%s: supports are (-K//2 - 1, K//2 + 1) with K = int(ceil(.)) >= 0, i.e. strictly negative / strictly positive ends" % name,
